@@ -708,4 +708,164 @@ theorem parseInterest_at (R : ReaderSpecs) (E : EncSpecs) (S : SigInfoParseSpec)
     rw [hc hest, hX _ v hfn]
     simp [interestCovered, List.append_assoc]
 
+/-! ### from `InterestIn.Valid` and the normal form to the decoder's preconditions -/
+
+theorem interestName_eq_int (n : Name) (b : Bool) :
+    interestName n b = if b then stripDigest n ++ [digestComp (List.replicate 32 0)] else stripDigest n := by
+  unfold interestName stripDigest; rfl
+
+theorem stripDigest_valid_int (n : Name) (h : NameValid n) : NameValid (stripDigest n) := by
+  unfold stripDigest
+  split
+  · split
+    · intro c hc; exact h c (List.dropLast_subset _ hc)
+    · exact h
+  · exact h
+
+theorem optB_length_int {α : Type} (o : Option α) (f : α → Bytes) (g : α → Nat) (h : ∀ a, (f a).length = g a) :
+    (optB o f).length = optN o g := by
+  cases o with
+  | none => rfl
+  | some a => exact h a
+
+theorem tlLen_le9_int (x : Nat) : tlLen x ≤ 9 := by
+  unfold tlLen; repeat' split
+  all_goals omega
+
+theorem interestHead_length_int (E : EncSpecs) (i : InterestIn) (fn : Name) :
+    (interestHead i fn).length = interestHeadLen i fn := by
+  have h1 : (encNameField 7 fn).length = nameFieldLen 7 fn := by
+    simp [encNameField, nameFieldLen, encTL_length, E.nameLen_eq]; omega
+  have h2 : ∀ (t : Nat) (b : Bool), t ≤ 0xfc → (boolField t b).length = boolFieldLen b := by
+    intro t b ht; cases b <;> simp [boolField, boolFieldLen, encTL_small_int t ht]
+  have h3 := optB_length_int i.fh (fun ns => encTL 30 ++ encTL (linksLen ns) ++ encLinks ns)
+    (fun ns => 1 + tlLen (linksLen ns) + linksLen ns) (by
+      intro ns; simp [encTL_length, E.linksLen_eq, tlLen_small_int]; omega)
+  have h4 := optB_length_int i.nonce encNonce (fun _ => 6) (by intro x; simp [encNonce])
+  have h5 := optB_length_int i.lt (encNatField 12) (natFieldLen 12) (by
+    intro x; simp [encNatField, natFieldLen, encTL_length]; omega)
+  have h6 := optB_length_int i.hl encHopLimit (fun _ => 3) (by intro x; simp [encHopLimit])
+  simp only [interestHead, List.length_append, h1, h2 33 i.cbp (by omega), h2 18 i.mbf (by omega), h3, h4, h5, h6]
+  rfl
+
+theorem interestReady_of_int (E : EncSpecs) (i : InterestIn) (sign H : Bytes → Bytes) (e : Encoded) (fn : Name)
+    (hv : i.Valid) (hH : ∀ x, (H x).length = 32) (hm : makeInterest i sign H = .ok (e, fn)) :
+    InterestReady i fn e.sigVal ∧ (interestValue i fn e.sigVal).length < 2 ^ 62 := by
+  obtain ⟨hfn, _, hsig, hnosig⟩ := E.makeInterest_flatten i sign H e fn hv hH hm
+  obtain ⟨hnv, hfh, hnonce, hlt, hhl, hsi, hest, hlen⟩ := hv
+  -- the final name has the length of the name the length pass saw
+  have hnl : nameLen fn = nameLen (interestName i.name i.ap.isSome) := by
+    rw [hfn, interestName_eq_int]; unfold interestFinalName
+    cases i.ap.isSome with
+    | false => simp
+    | true => simp [nameLen, compLen, digestComp, hH]
+  have hhead : interestHeadLen i fn = interestHeadLen i (interestName i.name i.ap.isSome) := by
+    unfold interestHeadLen nameFieldLen; rw [hnl]
+  have hsv : e.sigVal.length ≤ i.est := by
+    rcases Nat.eq_zero_or_pos i.est with h0 | h0
+    · rw [(hnosig h0).2]; simp
+    · exact (hsig h0).2.2
+  have hnfl : nameLen (interestName i.name i.ap.isSome) ≤ interestHeadLen i (interestName i.name i.ap.isSome) := by
+    unfold interestHeadLen nameFieldLen; omega
+  have hestlen : i.est ≤ sigTLLen 46 i.est := by unfold sigTLLen; split <;> omega
+  unfold interestLen at hlen
+  refine ⟨⟨?_, by omega, hfh, ?_, hnonce, hlt, hhl, ?_, hsi, ?_, by omega, hest, ?_⟩, ?_⟩
+  · rw [hfn]; unfold interestFinalName
+    have := stripDigest_valid_int i.name hnv
+    split
+    · intro c hc
+      rcases List.mem_append.mp hc with h1 | h1
+      · exact this c h1
+      · simp at h1; subst h1; simp [CompValid, digestComp]
+    · exact this
+  · intro ns hns
+    unfold interestHeadLen at hlen; rw [hns] at hlen; simp only [optN] at hlen; omega
+  · intro c hc
+    rw [hc] at hlen; simp only [optN] at hlen; omega
+  · intro s hs
+    rw [hs] at hlen; simp only [optN] at hlen; omega
+  · intro hap
+    refine ⟨H (interestParamsPortion i e.sigVal), ?_⟩
+    rw [hfn]; unfold interestFinalName; rw [if_pos hap]; rfl
+  · have hpp : (interestParamsPortion i e.sigVal).length
+        ≤ optN i.ap (fun c => 1 + tlLen (contentLen c) + contentLen c)
+          + optN i.si (fun s => 1 + tlLen (sigInfoLen s) + sigInfoLen s) + sigTLLen 46 i.est + 8 := by
+      have h1 := optB_length_int i.ap (fun c => encTL 36 ++ encTL (contentLen c) ++ c.flatten)
+        (fun c => 1 + tlLen (contentLen c) + contentLen c) (by
+          intro c; rw [List.length_append, List.length_append, flatten_length_int, encTL_length, encTL_length,
+            tlLen_small_int 36 (by omega)])
+      have h2 := optB_length_int i.si (fun s => encTL 44 ++ encTL (sigInfoLen s) ++ encSigInfo s)
+        (fun s => 1 + tlLen (sigInfoLen s) + sigInfoLen s) (by
+          intro s; rw [List.length_append, List.length_append, E.sigInfoLen_eq, encTL_length, encTL_length,
+            tlLen_small_int 44 (by omega)])
+      simp only [interestParamsPortion, List.length_append, h1, h2]
+      have h9 := tlLen_le9_int e.sigVal.length
+      unfold sigTLLen
+      split
+      · simp [encTL_length, tlLen_small_int]; have := tlLen_pos i.est; omega
+      · simp
+    simp only [interestValue, List.length_append, interestHead_length_int E, hhead]
+    omega
+
+/-! ### ReadInterest ∘ MakeInterest -/
+
+theorem checkInterest_ok_int (i : InterestIn) (H : Bytes → Bytes) (fn : Name) (sv : Bytes) (fs : InterestSt)
+    (hest : i.est > 0 → i.ap.isSome) (hnt : NoTrailingDigest i) (hfn : fn = interestFinalName i H sv)
+    (hv : fs.v = interestExpect i fn sv) (hd : i.ap.isSome → fs.digestCovered = interestParamsPortion i sv) :
+    checkInterest H fs = true := by
+  unfold checkInterest
+  rw [hv]
+  simp only [interestExpect]
+  rcases (show i.ap = none ∨ ∃ c, i.ap = some c by cases i.ap <;> simp) with hap | ⟨c, hap⟩
+  · have he : ¬ i.est > 0 := fun h => by have := hest h; simp [hap] at this
+    have hfn' : fn = stripDigest i.name := by rw [hfn]; simp [interestFinalName, hap]
+    simp only [hap, he, Option.map_none, Option.isSome_none, Option.isNone_none, ↓reduceIte, Bool.false_eq_true, false_and]
+    cases hgl : fn.getLast? with
+    | none => rfl
+    | some c =>
+      have := hnt hap c (by rw [← hfn']; exact hgl)
+      simp [this]
+  · have hfn' : fn = stripDigest i.name ++ [digestComp (H (interestParamsPortion i sv))] := by
+      rw [hfn]; simp [interestFinalName, hap]
+    have hd' := hd (by simp [hap])
+    rw [hfn']
+    simp [hap, hd', digestComp]
+
+theorem readInterest_roundtrip (R : ReaderSpecs) (E : EncSpecs) (S : SigInfoParseSpec)
+    (i : InterestIn) (sign H : Bytes → Bytes) (e : Encoded) (fn : Name) (r : Rd) :
+    i.Valid → NoTrailingDigest i → (∀ x, (H x).length = 32) → makeInterest i sign H = .ok (e, fn) →
+    At r e.wire.flatten 0 →
+    ∃ cov, readInterest H r = .ok (interestExpect i fn e.sigVal, cov) ∧ (i.est > 0 → cov = interestCovered i) := by
+  intro hv hnt hH hm hat
+  obtain ⟨hfn, hflat, _, _⟩ := E.makeInterest_flatten i sign H e fn hv hH hm
+  obtain ⟨hr, hL⟩ := interestReady_of_int E i sign H e fn hv hH hm
+  rw [hflat] at hat
+  obtain ⟨V, hV⟩ : ∃ V, V = interestValue i fn e.sigVal := ⟨_, rfl⟩
+  rw [← hV] at hat hL
+  obtain ⟨buf, hbuf⟩ : ∃ b, b = encTL 5 ++ encTL V.length ++ V := ⟨_, rfl⟩
+  rw [← hbuf] at hat
+  have hb : buf.drop 0 = encTL 5 ++ (encTL V.length ++ V) := by rw [hbuf]; simp
+  have hlenb : buf.length = tlLen 5 + tlLen V.length + V.length := by
+    rw [hbuf, List.length_append, List.length_append, encTL_length, encTL_length]
+  have h5 := tlLen_pos 5
+  obtain ⟨f, hf⟩ : ∃ f, buf.length = f + 1 := ⟨buf.length - 1, by omega⟩
+  have hfuel : loopFuel r = f + 1 + 1 := by
+    simp [loopFuel, R.pos_eq r _ 0 hat, R.length_eq r _ 0 hat, hf]
+  obtain ⟨r2, a2, l2, d2, e2⟩ := tlvLoop_step R packetBody (f + 1) ({} : PacketSt) r buf 0 5 V.length V hat hb
+    (by omega) hL
+  obtain ⟨sub, r3, e3, asub, a3⟩ := R.delegate_ok r2 buf _ V.length a2 (by omega)
+  have htk : (buf.drop (0 + tlLen 5 + tlLen V.length)).take V.length = V := by rw [d2]; simp
+  rw [htk, hV] at asub
+  obtain ⟨fs, e4, hv4, hd4, hc4⟩ := parseInterest_at R E S i fn e.sigVal sub hr asub
+  have hend : ∀ st' : PacketSt, tlvLoop packetBody (f + 1) st' r3 = .ok (st', r3) :=
+    fun st' => tlvLoop_end R packetBody f st' r3 buf _ a3 (by omega)
+  have hchk := checkInterest_ok_int i H fn e.sigVal fs hr.est hnt hfn hv4 hd4
+  have hpp : parsePacket r = .ok { interest := some fs, ictx := fs } := by
+    simp only [parsePacket, hfuel, e2]
+    simp [packetBody, e3, e4, hend]
+  refine ⟨fs.sigCovered, ?_, hc4⟩
+  have hchk' : checkInterest H { fs with digestCovered := fs.digestCovered } = true := hchk
+  simp only [readInterest, hpp, Res.bind_ok]
+  rw [if_pos hchk', hv4]; rfl
+
 end Ndn.C03
